@@ -60,7 +60,8 @@ class GlencoeReader(TextToModel):
                     # children.append(child_feature)  # NOTE: may be needed for mandatory in groups
                 else:
                     children.append(child_feature)
-            if feature_type != "FEATURE":  # group
+            # group: when every member is mandatory there is nothing left to group (no empty relation)
+            if feature_type != "FEATURE" and children:
                 if feature_type == "XOR":
                     relation = Relation(feature, children, 1, 1)
                 elif feature_type == "OR":
